@@ -31,7 +31,7 @@ from ..common import Report, MachineryError, seed, quiet
 PROPS = {
     "C08": dict(level="exploration",
                 technique="TLC on ParityAlg.tla (code's declaration mechanism transcribed vs parities derived from the physical composition of each formula; product/derivative/involution laws) + replay of the declaration table on the real formula objects and dynamic calculators (effect of the declared Transform on a probe tensor) + TLC validation of recorded declarations and of signs measured at k / -k on symmetric random models",
-                text="TLC decides for every catalogued formula (56 names of formula/covariant.py, basic.py, elementary.py, sdct.py, calculators/dynamic.py; ~110 option variants) which "
+                text="TLC decides for every catalogued formula (56 names + 8 nested products of products / sums / delta products of formula/covariant.py, basic.py, elementary.py, sdct.py, calculators/dynamic.py; ~110 option variants) which "
                      "transformation under time reversal and inversion its composition requires and that the code's way of declaring it yields exactly that; the effect of the real objects' "
                      "declared transformTR/transformInv on a probe tensor is compared exactly with the table (also for the transformation that each DynamicCalculator attaches to its result), "
                      "and the value of every formula variant at -k is compared with the declared transformation of its value at k on symmetric random models (floating point, 1e-8), as is the "
@@ -141,6 +141,24 @@ def registry(skipped=None):
             lambda c, d, sym=sym: c(d, sym=sym, S_terms=True, external_terms=True), kind="dyn", spin=True)
         add("Formula_SDCT_surf_II", f"Formula_SDCT_surf_II(sym={sym},S_terms=True,external_terms=True)", "SD",
             lambda c, d, sym=sym: c(d, sym=sym, S_terms=True, external_terms=True), kind="dyn", spin=True)
+    # nested compositions: products whose factors are themselves products / sums / delta products (spec: ParityAlg.Nested)
+    F = mods["F"]
+    try:
+        from wannierberri.formula.formula import FormulaProduct, FormulaSum, DeltaProduct
+    except ImportError as ex:
+        skipped["nested_products"] = f"{ex}"
+        return reg
+
+    def nested(name, build):
+        reg.append(dict(name=name, label=name, cls=None, make=(lambda d, build=build: build(d)), kind="ln", spin=False, transforms=None, nonadditive=False, nested=True))
+    nested("N_MassVel_Vel", lambda d: FormulaProduct([F.MassVel(d), F.Velocity(d)]))
+    nested("N_VelVelVel_Vel", lambda d: FormulaProduct([F.VelVelVel(d), F.Velocity(d)]))
+    nested("N_MassVel_Omega", lambda d: FormulaProduct([F.MassVel(d), F.Omega(d)]))
+    nested("N_VelVel_Vel", lambda d: FormulaProduct([F.VelVel(d), F.Velocity(d)]))
+    nested("N_VelVel_MassVel", lambda d: FormulaProduct([F.VelVel(d), F.MassVel(d)]))
+    nested("N_Sum_Vel", lambda d: FormulaProduct([FormulaSum([F.MassVel(d), F.MassVel(d)], [1, 1], ["abc", "acb"]), F.Velocity(d)]))
+    nested("N_Delta_Omega", lambda d: FormulaProduct([DeltaProduct(np.eye(3), F.MassVel(d), "ae,MNebc->MNabc"), F.Omega(d)]))
+    nested("N_MassVelVel_Vel", lambda d: FormulaProduct([FormulaProduct([F.MassVel(d), F.Velocity(d)]), F.Velocity(d)]))
     return reg
 
 
@@ -388,7 +406,7 @@ def _check(rep, tier):
     import warnings
     warnings.filterwarnings("ignore")
     from . import kmodels as km
-    rep.rule("one TLC state per catalogued formula (56); a case = one real formula object (class x variant of its options) or dynamic calculator whose declared "
+    rep.rule("one TLC state per catalogued formula (56) and per nested product (8); a case = one real formula object (class x variant of its options) or dynamic calculator whose declared "
              "transformation (by its effect on a probe tensor) is compared exactly with the state, or one (formula variant / calculator / unlisted formula class, symmetric random model, "
              "k-point, band group) where value(-k) is compared with the declared transformation of value(k); distinct by (label, model seed, k, group)")
     rep.assume(f"numeric part: k-points with a gap between different multiplets below {MINGAP} are excluded (NonDegenerateK); data are dyadic rationals")
@@ -401,11 +419,11 @@ def _check(rep, tier):
     mism = tlc.printed(st["output"], "TABLE_MISMATCH")
     rep.part("c08_parity", get_transform_table_entries_not_matching_physical_parity=mism,
              note="observation only: these names are never consumed through covariant() by a calculator's final formula")
-    for mu in (("DerOmega", "VelSpin", "Formula_OptCond", "emcha_surf") if thorough else ("VelSpin",)):
-        sv = tlc.run_tlc("MC_ParityAlg.tla", cfg(mu), f"c08_mut_{mu}{TAG}", workers=2, timeout=900)
+    for mu in (("DerOmega", "VelSpin", "Formula_OptCond", "emcha_surf", "@literal_only") if thorough else ("VelSpin", "@literal_only")):
+        sv = tlc.run_tlc("MC_ParityAlg.tla", cfg(mu), f"c08_mut_{mu.strip('@')}{TAG}", workers=2, timeout=900)
         if not sv.get("violation"):
             raise MachineryError(f"sensitivity self-test failed: flipped declaration of {mu} accepted ({sv.get('error')})")
-        rep.part(f"c08_sensitivity_{mu}", violated=sv["violation"][1])
+        rep.part(f"c08_sensitivity_{mu.strip('@')}", violated=sv["violation"][1])
     table = {s["f"]: s for s in ftable.dump_states(st)}
     if len(table) != st["distinct"] or len(table) < 50:
         raise MachineryError(f"dump has {len(table)} states, TLC reported {st['distinct']}")
@@ -478,6 +496,32 @@ def _check(rep, tier):
     rep.part("covariant_table_observation", note="[TR factor, inversion factor] (0 = none) of data_K.covariant(name, commader, gender) for names no catalogued formula consumes; not compared",
              **{k.replace(",", "_"): v for k, v in obs.items()})
 
+    # ------------------------------------------------------------ TransformProduct of objects equal to, but not identical with, the module constants
+    try:
+        from wannierberri.symmetry import point_symmetry as ps
+        mk = dict(ident=lambda: ps.transform_ident, odd=lambda: ps.transform_odd, odd_conj=lambda: ps.transform_odd_conj,
+                  odd_copy=lambda: ps.Transform(factor=-1), ident_copy=lambda: ps.Transform(), odd_conj_copy=lambda: ps.Transform(factor=-1, conj=True),
+                  inner_product=lambda: ps.TransformProduct([ps.transform_odd, ps.transform_ident]))
+        for names in (("odd_copy", "ident"), ("odd_copy", "odd"), ("odd_copy", "odd_copy"), ("ident_copy", "odd_copy", "odd"), ("odd_conj_copy", "odd_conj"),
+                      ("inner_product", "ident"), ("inner_product", "odd"), ("inner_product", "inner_product", "odd_copy")):
+            objs = [mk[n]() for n in names]
+            tsd = [effect_desc(o, 2, True) for o in objs]
+            rep.case(("tprod", names))
+            try:
+                out = effect_desc(ps.TransformProduct(objs), 2, True)
+            except Exception as ex:  # noqa
+                rep.violation(f"raises:TransformProduct:{type(ex).__name__}", dict(factors=list(names), error=f"{type(ex).__name__}: {ex}"[:300]))
+                continue
+            want = 1
+            for d_ in tsd:
+                want *= d_["factor"]
+            if out["factor"] != want or out["conj"] != tsd[0]["conj"] or out["axes"] != "":
+                rep.violation("TransformProduct:factors_given_by_value", dict(factors=list(names), effects_of_the_factors=tsd, expected_factor=want, got_effect=out,
+                                                                            note="some factors are Transform objects equal in value to, but not identical with, transform_odd / transform_ident"))
+            recs.append(dict(kind="tprod", name="TransformProduct", ts=tsd, out=out))
+    except (ImportError, AttributeError) as ex:
+        skipped["TransformProduct_by_value"] = f"{type(ex).__name__}: {ex}"[:200]
+
     # ------------------------------------------------------------ calculator-level declarations
     calcs = dynamic_calculators(skipped)
     calc_objs = []
@@ -512,7 +556,7 @@ def _check(rep, tier):
     worst = 0.0
     interm = {}
     calc_decl_done = set()
-    ncalc = 0
+    ncalc = nstat = 0
     for sym, spinful, doubled, dim in modes:
         for isd in range(nseeds):
             sd = rng.randrange(1 << 30)
@@ -593,6 +637,38 @@ def _check(rep, tier):
                             worst = max(worst, dev / scale)
                             if not bad:
                                 (usigns if unl else signs).setdefault((e["name"], e["label"], sym), set()).add((s, fdecl))
+                # nested products handed to a StaticCalculator(Formula=...): the result carries the product's declaration
+                if not doubled:
+                    Es = np.sort(d1.E_K[0])
+                    Efs = np.array([0.5 * (Es[0] + Es[1]), 0.5 * (Es[-2] + Es[-1])])
+                    for e in [x for x in reg if x.get("nested")]:
+                        try:
+                            from wannierberri.calculators.static import StaticCalculator
+                            sc = StaticCalculator(Efermi=Efs, Formula=(lambda data_K, e=e, **kw: e["make"](data_K)), fder=0)
+                            with quiet():
+                                r1, r2 = sc(d1), sc(d2)
+                            t = r1.transformTR if sym == "TR" else r1.transformInv
+                            a, b, rank = np.asarray(r1.data), np.asarray(r2.data), int(r1.rank)
+                        except Exception as ex:  # noqa
+                            site = lib_raised(ex)
+                            if site is None:
+                                skipped["static_calculator:" + e["name"]] = f"{type(ex).__name__}: {ex}"[:200]
+                            else:
+                                rep.violation(f"raises:static_calculator:{e['name']}:{type(ex).__name__}", dict(formula=e["label"], model=m.dump(), k=k.tolist(), raised_in=site, error=str(ex)[:300]))
+                            continue
+                        a2, b2 = a.reshape((-1,) + (3,) * rank), b.reshape((-1,) + (3,) * rank)
+                        s, dev, scale, fdecl = classify(t, a2, b2, relative=True)
+                        nstat += 1
+                        rep.case(("static_calc", e["name"], modelname, sd, tuple(k)), nontrivial=bool(s))
+                        if s is None or (s != 0 and s != fdecl):
+                            failed.add(("static_calculator:" + e["name"], sym))
+                            rep.violation(f"parity_numeric:{sym}:{e['name']}",
+                                          dict(static_calculator="StaticCalculator(Formula=<nested product>, fder=0)", formula=e["label"], symmetry=sym, model=m.dump(), k=k.tolist(),
+                                               Efermi=Efs.tolist(), declared_effect=effect_desc(t, rank, False), measured_sign=s, deviation=dev, tolerance=TOL * scale,
+                                               note="Fermi-sea result of the calculator at -k versus the declared transformation of its result at k"))
+                        elif s:
+                            worst = max(worst, dev / scale)
+                            signs.setdefault((e["name"], "static_calculator:" + e["name"], sym), set()).add((s, fdecl))
                 # the result of every dynamic calculator (complex, with its frequency factors) at -k and at k
                 if not doubled:
                     E = np.sort(d1.E_K[0])
@@ -644,7 +720,7 @@ def _check(rep, tier):
                     rep.sample(dict(fn="value(-k) vs T(value(k))", symmetry=sym, spinful=spinful, doubled=doubled, dim=dim, model_seed=sd, k=k.tolist()))
             if done < nk:
                 raise MachineryError("no non-degenerate k-point found")
-    rep.part("numeric_only", classified=nclass, max_relative_deviation=worst, tolerance=TOL, calculator_results_compared=ncalc,
+    rep.part("numeric_only", classified=nclass, max_relative_deviation=worst, tolerance=TOL, calculator_results_compared=ncalc, static_calculator_results_of_nested_products=nstat,
              unlisted_formula_classes_measured=sorted({k[0] for k in usigns}))
     rep.part("intermediate_formulas", note="formula classes outside the catalogue that are mixed-parity intermediates or cannot be measured: information only",
              **{k: v for k, v in interm.items()})
@@ -677,6 +753,12 @@ def _check(rep, tier):
     b4 = pick(lambda x: x["kind"] == "decl1", "calculator declaration")
     b4["t"]["factor"] = -b4["t"]["factor"]
     corrupt = [b1, b2, b3, b4]
+    if any(x["kind"] == "decl" and x["name"] == "N_MassVel_Vel" for x in recs):
+        b5 = pick(lambda x: x["kind"] == "decl" and x["name"] == "N_MassVel_Vel", "nested declaration")
+        b5["tr"]["factor"] = -b5["tr"]["factor"]          # what "only literal constants count" would declare
+        b6 = pick(lambda x: x["kind"] == "tprod" and x["out"]["factor"] == -1, "tprod")
+        b6["out"]["factor"] = 1
+        corrupt += [b5, b6]
     stv, bad = ftable.validate_records("ParityAlgRec.tla", ftable.REC_CFG, recs + corrupt, "c08" + TAG)
     rep.add_tlc("c08_records", stv)
     rep.add_traces(len(recs))
